@@ -3,6 +3,13 @@
 Explicit-state BFS over compound UI actions executed by the REAL glue code of MenuConfigApp (mck/headless.py); a state is
 the action history, replayed on a fresh session (fresh Kconfig, fresh sdkconfig file) every time.
 
+Value dimension: besides ordinary values, every type is exercised with its falsy-looking value -- strings with the
+empty string (Kconfig `default ""`, the user clears the text in the input dialog, initial / loaded files carrying
+`CONFIG_X=""`), int 0, hex 0x0 (also typed as "0"), float 0.0, bool n -- as default, as typed value, as value held by an
+option that gets hidden, and as content of the initial sdkconfig and of the files offered to the Load dialog (trees
+`empty_strings`, `zero_numbers`; the empty string is also in the typed alphabet of every other tree with a string
+option, the numeric zeros in the typed alphabets of all trees in the thorough tier).
+
 Oracles, in every reached state:
   (1) needs_save() == False  =>  bytes of the sdkconfig file == what `s` would write now
       (Kconfig.write_config with the header exactly as MenuConfigApp._do_save builds it)
@@ -27,7 +34,9 @@ RULE = (
     "glue on a fresh session per history; depth 4 (quick) / 5 (thorough; load/jump prefixes bounded as stated in "
     "ASSUMPTIONS); states merged on (user values, baseline fields, missing_syms, cur_menu, shown rows, highlighted row, "
     "show_all, conf_changed, exit status, file bytes). distinct_nontrivial counts distinct (pair, user state, needs_save, "
-    "file bytes) reached by a non-empty history."
+    "file bytes) reached by a non-empty history. Typed values include the empty string for every string option and (the "
+    "dedicated tree zero_numbers in both tiers, all trees in the thorough tier) the zero of every numeric type; initial files include "
+    'tool-written and hand-written ones carrying `=""` / `=0` / `=0x0` / `=0.0` entries.'
 )
 ASSUMPTIONS = [
     "keys whose handler takes the same path as another offered key are left out (Enter vs Space and y/n vs Space on a plain bool, Escape vs Left "
@@ -37,6 +46,9 @@ ASSUMPTIONS = [
     "quick tier: depth 4, jump-to only as the first action of a history, Load dialog offers {another tool-written file, the "
     "session's own file}; thorough tier: depth 5, jump-to among the first three actions, Load dialog additionally offers a "
     "hand-written fragment",
+    "typed values per option type are a fixed small alphabet per tree (one or two ordinary values, the empty string for strings; "
+    "zeros of int/hex/float in tree zero_numbers and, thorough tier only, in every tree); spellings that "
+    "check_valid and set_value may judge differently (`-0`, `00`, blanks) belong to C17 and are not typed here",
     "the conformance replay through textual.Pilot compares cur_menu, shown rows, list rows, highlighted row, sel_node_i, show_all, "
     "conf_changed, all values, needs_save(), top screen, exit status and file bytes after every key",
 ]
@@ -61,7 +73,8 @@ def trees() -> List[Dict[str, Any]]:
         dict(
             name="cond_prompt",
             prog=Program(children=kids),
-            typed={"int": ["7", "5"], "string": ["v1"]},
+            typed={"int": ["7", "5"], "string": ["v1", ""]},
+            typed_more={"int": ["0"]},
             alt=[("B", "y"), ("N", "7"), ("A", "n")],
             alt2=[("S", "zz"), ("B", "y")],
             dup="# CONFIG_A is not set\n",
@@ -86,6 +99,7 @@ def trees() -> List[Dict[str, Any]]:
             name="choice_select",
             prog=Program(children=kids),
             typed={"hex": ["0x1f"]},
+            typed_more={"hex": ["0x0"]},
             alt=[("C2", "y"), ("H", "0x2a"), ("X", "y")],
             alt2=[("C3", "y")],  # the file loaded with [O] differs from the defaults in nothing but the choice selection (no option depends on C3)
             dup="CONFIG_C2=y\n",
@@ -108,7 +122,8 @@ def trees() -> List[Dict[str, Any]]:
         dict(
             name="menu_visible_if_menuconfig",
             prog=Program(children=kids),
-            typed={"int": ["4"], "string": ["w"]},
+            typed={"int": ["4"], "string": ["w", ""]},
+            typed_more={"int": ["0"]},
             alt=[("A", "y"), ("B", "n"), ("I", "8"), ("A", "n")],
             alt2=[("MC", "y"), ("K", "y")],
             dup="CONFIG_A=y\n",
@@ -134,7 +149,8 @@ def trees() -> List[Dict[str, Any]]:
         dict(
             name="set_promptless_float",
             prog=Program(children=kids),
-            typed={"int": ["3"], "string": ["u"], "float": ["2.5"]},
+            typed={"int": ["3"], "string": ["u", ""], "float": ["2.5"]},
+            typed_more={"int": ["0"], "float": ["0.0"]},
             alt=[("N", "3"), ("A", "y")],
             alt2=[("F", "0.25"), ("S", "q")],
             dup="CONFIG_N=2\n",
@@ -157,6 +173,7 @@ def trees() -> List[Dict[str, Any]]:
             prog=Program(children=kids),
             renames=["CONFIG_OLD_A CONFIG_A\nCONFIG_OLD_NB !CONFIG_B\n"],
             typed={"int": ["6"]},
+            typed_more={"int": ["0"]},
             alt=[("A", "y"), ("T", "6")],
             alt2=[("B", "n")],
             dup="CONFIG_A=y\n",
@@ -180,6 +197,7 @@ def trees() -> List[Dict[str, Any]]:
             name="warning_menu_depends_comment",
             prog=Program(children=kids),
             typed={"hex": ["0x6"]},
+            typed_more={"hex": ["0"]},
             alt=[("W", "y"), ("E", "y"), ("G", "0x9"), ("Z", "n")],
             alt2=[("Z", "n")],
             dup="CONFIG_W=y\n",
@@ -189,10 +207,55 @@ def trees() -> List[Dict[str, Any]]:
             frag="CONFIG_W=y\nCONFIG_G=0x8\n",
         )
     )
+    # K7: empty strings -- `default ""`, a string the user clears in the input dialog, files carrying `CONFIG_X=""`,
+    #     a conditional-prompt string whose (empty) value gets hidden, a bool whose default/user value is `n`
+    kids = [
+        Cfg("B", "bool", prompt="b", defaults=[(L("y"), None)]),
+        Cfg("E", "string", prompt="e", defaults=[(L('""'), None)]),
+        Cfg("S", "string", prompt="s", defaults=[(L('"d"'), None)]),
+        Cfg("T", "string", prompt="t", prompt_cond=S("B"), defaults=[(L('""'), None)]),
+    ]
+    out.append(
+        dict(
+            name="empty_strings",
+            prog=Program(children=kids),
+            typed={"string": ["", "v"]},
+            alt=[("S", ""), ("E", "x"), ("T", ""), ("B", "n")],
+            alt2=[("S", "")],
+            dup='CONFIG_E="z"\n',
+            dup_same='CONFIG_E=""\n',
+            partial='CONFIG_S=""\n',
+            stale=[('CONFIG_E=""', 'CONFIG_E="old"'), ('CONFIG_S="d"', 'CONFIG_S=""')],
+            frag='CONFIG_S=""\n# CONFIG_B is not set\n',
+        )
+    )
+
+    # K8: zero / `n` values of the other types -- defaults 0, 0x0, 0.0; typed 0 / 0.0 and "0" for hex (which the dialog
+    #     completes to 0x0); an int that is 0 (default or typed) while its dependency is switched off
+    kids = [
+        Cfg("B", "bool", prompt="b", defaults=[(L("y"), None)]),
+        Cfg("N", "int", prompt="n", depends=[S("B")], defaults=[(L("0"), None)]),
+        Cfg("H", "hex", prompt="h", defaults=[(L("0x0"), None)]),
+        Cfg("F", "float", prompt="f", defaults=[(L("0.0"), None)]),
+    ]
+    out.append(
+        dict(
+            name="zero_numbers",
+            prog=Program(children=kids),
+            typed={"int": ["0", "1"], "hex": ["0", "0x1"], "float": ["0.0", "0.5"]},
+            alt=[("N", "1"), ("H", "0x0"), ("F", "0.5"), ("B", "n")],
+            alt2=[("F", "0.0"), ("N", "0")],
+            dup="CONFIG_N=1\n",
+            dup_same="CONFIG_N=0\n",
+            partial="CONFIG_N=0\nCONFIG_H=0x0\n",
+            stale=[("CONFIG_N=0", "CONFIG_N=3"), ("CONFIG_H=0x0", "CONFIG_H=0x00")],
+            frag="# CONFIG_B is not set\nCONFIG_F=0.0\n",
+        )
+    )
     return out
 
 
-IDF_ENV = {"IDF_TARGET": "esp32", "IDF_VERSION": "v9.9"}
+IDF_ENV ={"IDF_TARGET": "esp32", "IDF_VERSION": "v9.9"}
 
 
 def tool_text(files: Dict[str, str], renames: Optional[List[str]], ops: List[Tuple[str, str]], env: Dict[str, str]) -> str:
@@ -223,7 +286,7 @@ def tool_text(files: Dict[str, str], renames: Optional[List[str]], ops: List[Tup
 def items(tier: str, seed: int):
     out = pairs(tier)
     # biggest searches first (the runner hands items out in list order)
-    weight = {"cond_prompt": 0, "choice_select": 1, "menu_visible_if_menuconfig": 2, "warning_menu_depends_comment": 3, "set_promptless_float": 4}
+    weight = {"cond_prompt": 0, "zero_numbers": 0, "empty_strings": 0, "choice_select": 1, "menu_visible_if_menuconfig": 2, "warning_menu_depends_comment": 3, "set_promptless_float": 4}
     out.sort(key=lambda it: weight.get(it["tree"], 9))
     return out
 
@@ -250,26 +313,30 @@ def pairs(tier: str):
             ("hand_dup", tdef + t["dup"], {}),
             ("hand_partial", t["partial"], {}),
         ]
-        if tier != "quick" or t["name"] in ("cond_prompt", "choice_select"):
+        if tier != "quick" or t["name"] in ("cond_prompt", "choice_select", "empty_strings", "zero_numbers"):
             kinds.append(("hand_dup_same", tdef + t["dup_same"], {}))
-        if t.get("stale"):
-            a, b = t["stale"]
-            if a not in tdef:
+        stale = t.get("stale") or []
+        for j, (a, b) in enumerate([stale] if isinstance(stale, tuple) else stale):
+            if a + "\n" not in tdef:
                 raise RuntimeError(f"stale pattern {a!r} not in tool-written text of {t['name']}")
-            kinds.append(("hand_stale_default", tdef.replace(a, b), {}))
+            kinds.append(("hand_stale_default" + (str(j + 1) if j else ""), tdef.replace(a + "\n", b + "\n"), {}))
         if t.get("deprecated"):
             kinds.append(("hand_deprecated", t["deprecated"], {}))
         if t["name"] == "cond_prompt":
             kinds.append(("absent+idf_header", None, dict(IDF_ENV)))
             kinds.append(("tool_default+idf_header", tool_text(files, ren, [], IDF_ENV), dict(IDF_ENV)))
             kinds.append(("tool_alt+idf_header", tool_text(files, ren, t["alt"], IDF_ENV), dict(IDF_ENV)))
+        typed = {ty: list(v) for ty, v in t["typed"].items()}
+        if tier != "quick":  # zero values of the numeric types in every tree
+            for ty, v in (t.get("typed_more") or {}).items():
+                typed[ty] = typed.get(ty, []) + [x for x in v if x not in typed.get(ty, [])]
         for kind, text, env in kinds:
             out.append(
                 {
                     "tree": t["name"],
                     "sdk_kind": kind,
                     "spec": {"files": files, "sdk": text, "renames": ren, "env": env},
-                    "typed": t["typed"],
+                    "typed": typed,
                     "loads": loads,
                     "depth": depth,
                     "jump_prefix": jump_prefix,
@@ -333,7 +400,13 @@ def dirty_reason(st: headless.Harness) -> Tuple[str, str, str]:
             return "file_user_now_default", sym_feature(st, sym), sym.name
         elif sym._loaded_as_default and not sym.has_active_default_value():
             return "file_default_now_user", sym_feature(st, sym), sym.name
-    return "none", "-", "-"
+    # needs_save() is True although no clause of the predicate holds: name the options whose recorded file value looks
+    # falsy (empty string, zero) -- the usual way a truthiness test goes wrong
+    odd = [sym for sym in k.unique_defined_syms if sym._sdkconfig_value is not None and sym._sdkconfig_value in ("", "0", "0x0", "0.0")]
+    if odd:
+        feats = sorted({sym_feature(st, sym).split(":")[0] + ("=empty" if sym._sdkconfig_value == "" else "=zero") for sym in odd})
+        return "unexplained", "+".join(feats), ", ".join(f"{sym.name} (file baseline {sym._sdkconfig_value!r})" for sym in odd[:3])
+    return "unexplained", "-", "-"
 
 
 def loses_edit(item: Dict[str, Any], disk: Optional[str], expected: str) -> Any:
